@@ -42,6 +42,7 @@ class TransportPair:
         fab = world.fabric
         self.ctx = {n: fab.context(n) for n in names}
         self.gatherer, self.ice, self.dtls = {}, {}, {}
+        self.start_errors = []
         certs = fakes.certificate_pool()
         for i, n in enumerate(names):
             self.gatherer[n] = self.ctx[n].run(icemod.RTCIceGatherer, [])
@@ -60,7 +61,12 @@ class TransportPair:
                 await self.ice[n].addRemoteCandidate(c)
             await self.ice[n].start(self.gatherer[peer].getLocalParameters())
             params = (dtls_params or {}).get(n) or self.dtls[peer].getLocalParameters()
-            await self.dtls[n].start(params)
+            try:
+                await self.dtls[n].start(params)
+            except asyncio.CancelledError:
+                raise
+            except Exception as exc:  # noqa: an observation for the world's oracle, not a harness failure
+                self.start_errors.append((n, exc))
 
         # gather both first so that candidates exist when they are exchanged
         await asyncio.gather(*[w.loop.create_task(self.gatherer[n].gather(), context=self.ctx[n]) for n in self.names])
@@ -714,6 +720,9 @@ class DtlsWorld(MediaBase):
                                               context=pair.ctx[n])
             pair.dtls[n].on("statechange", on_state)
         await pair.connect(dtls_params=params)
+        for n, exc in pair.start_errors:
+            self.violation("C04", "dtls-start-raised:" + exc_tag(exc), "side %s: %r" % (n, exc))
+            return
         states = {n: pair.dtls[n].state for n in "AB"}
         common = [j for j in cfg["profiles_A"] if j in cfg["profiles_B"]]
         want = {}
